@@ -339,6 +339,31 @@ if names:
                     continue
                 ck.violation("testdata:%s:%s" % (kind, canon(detail)), "staticcheck (all analyzers) over the testdata module: %s %s" % (kind, detail[:300]), {"stderr": se[:3000]})
 
+# a package of 400 small files (+ importer) under a low descriptor limit: go build accepts it under the same limit,
+# and HEAD lints it with `ulimit -n 24` (measured); 128 leaves room and is far below the number of files
+FDLIMIT = 128
+import subprocess, shlex
+env2 = dict(SCENV); env2["STATICCHECK_CACHE"] = os.path.join(work, "sccache-fd")     # cold: the package is really loaded
+try:
+    pr = subprocess.run(["sh", "-c", "ulimit -n %d; exec %s" % (FDLIMIT, " ".join(shlex.quote(x) for x in [sc] + SCFLAGS + ["./manyfiles/..."]))],
+                        cwd=mod, env=env2, timeout=1200, stdout=subprocess.PIPE, stderr=subprocess.PIPE, text=True)
+    rc, so, se = pr.returncode, pr.stdout, pr.stderr
+except subprocess.TimeoutExpired:
+    rc, so, se = 124, "", "[timeout]"
+bad = judge(rc, so, se)
+real_runs.append({"corpus": "generated manyfiles/... (400 files + importer) under ulimit -n %d, cold cache" % FDLIMIT, "packages": 2, "rc": rc, "bad": len(bad), "diagnostics": ndiag(so)})
+ck.log("real binary over manyfiles/... under ulimit -n %d: rc=%d bad=%d" % (FDLIMIT, rc, len(bad)))
+for kind, detail in bad[:3]:
+    if already(kind, detail):
+        continue
+    rcb, _ = sh(["sh", "-c", "ulimit -n %d; exec go build ./manyfiles/..." % FDLIMIT], cwd=mod, timeout=1200)
+    if rcb != 0:
+        notes.append("go build itself fails under ulimit -n %d; low-descriptor finding not counted" % FDLIMIT)
+        break
+    ck.violation("low-fd-limit:%s:%s" % (kind, canon(re.sub(r"f\d+\.go", "fNNN.go", detail))),
+                 "staticcheck (all analyzers) under `ulimit -n %d` on a package of 400 small files that go build accepts under the same limit: %s %s" % (FDLIMIT, kind, detail[:300]),
+                 {"limit": FDLIMIT, "stderr": se[:3000], "rerun": "cd <generated module>; sh -c 'ulimit -n %d; exec staticcheck -checks=all ./manyfiles/...'" % FDLIMIT})
+
 # warm cache with damaged output files: the first runs populated STATICCHECK_CACHE; delete / truncate a seeded
 # sample of the cache's output (-d) files (their index entries survive) and lint the unchanged generated module again.
 # A damaged cache entry must behave like a miss: same oracle.
